@@ -1,5 +1,5 @@
 """property -> rules"""
-from . import rules_dd, rules_bounds, rules_limits, rules_tools, rules_conv, rules_handles, rules_access, rules_coders, rules_errors
+from . import rules_dd, rules_bounds, rules_limits, rules_tools, rules_conv, rules_handles, rules_access, rules_coders, rules_errors, rules_layout
 
 CLANG = "clang 14 parser, constant evaluator and CFG builder (via tools/h4x.cc)"
 CDB = "compile flags taken from ninja -t compdb of /repo/_build (or a throw-away cmake configure)"
@@ -123,6 +123,54 @@ PENDING["C16"] = {
     "trusted": [CLANG, CDB],
     "assumptions": [],
     "level_text": "TODO", "level_note": "TODO", "technique": "TODO",
+}
+
+
+def _layouts(*recs):
+    def rule(ctx):
+        n = rules_layout.rule_layouts(ctx, only=set(recs) if recs else None)
+        ctx.floor("F1", max(2, len([t for t in rules_layout.TABLE if not recs or t[0] in recs]) - 0), n, "(codec layout table rows)")
+    rule.__name__ = "rule_layouts_%s" % ("_".join(recs) if recs else "all")
+    return rule
+
+
+PROPS["C02"]["rules"] = [_layouts(), rules_bounds.rule_F2_arrays, rules_dd.rule_F3, rules_dd.rule_F3b, rules_dd.rule_F11b, rules_dd.rule_F11c]
+PROPS["C12"]["rules"] = PROPS["C12"]["rules"] + [_layouts("DD", "DDH")]
+PROPS["C20"]["rules"] = PROPS["C20"]["rules"] + [rules_bounds.rule_F2_strings]
+PROPS["C05"]["rules"] = PROPS["C05"]["rules"] + [_layouts("comp-header")]
+
+PROPS["C07"] = {
+    "rules": [_layouts("VH"), rules_limits.rule_F9b, rules_limits.rule_F9c, rules_bounds.rule_F2_strings],
+    "level": "other",
+    "explanation": "Decides structural necessary conditions of 'a Vdata returns the records written': (F1) vpackvs writes and vunpackvs reads the Vdata header (VH) exactly as the frozen format specification says — field widths, order, loops over fields, the optional flags/attribute tail and the version/more pair re-read from len-5; (F9b/F9c) every value that ends up in a 16-bit field of that record (field count, sizes, offsets, orders, name lengths, record size) is bounded where it is computed, no narrow counter is incremented without a limit test; (F2s) every copy into the fixed-size vsname/vsclass buffers is bounded by the buffer. Not decided: VSread/VSwrite gather/scatter (cases A-E), interlace conversion and seek arithmetic — all value-level.",
+    "rule_text": "instances = rows of the VH layout table (writer, readers), increments of narrow record fields, ENCODE sites of vpackvs/vpackvg and narrowing stores into their fields, copies into fixed array fields",
+    "trusted": [CLANG, CDB, "the frozen VH layout (DESIGN Appendix A)"],
+    "assumptions": ["the spec table is the transcription of the published format"],
+    "level_text": "Writer = reader = specification for the Vdata header plus guard-dominance for everything stored in its 16-bit fields; holds for every schema, not the few the tests build.",
+    "level_note": "Trusted: clang front end, build flags, the transcribed VH layout. The record transfer arithmetic of VSread/VSwrite is out of static reach and not claimed.",
+    "technique": "AST codec-layout extraction compared with a frozen spec + guard-dominance dataflow",
+}
+PROPS["C08"] = {
+    "rules": [_layouts("VG"), rules_limits.rule_F9b, rules_limits.rule_F9c],
+    "level": "other",
+    "explanation": "Decides structural necessary conditions of 'Vgroup membership, naming and hierarchy persist': (F1) vpackvg writes and vunpackvg reads the Vgroup record (VG) exactly as specified — element count, tag list, ref list, name and class with 16-bit lengths, extag/exref, optional flags and attribute list, version/more re-read from len-5; (F9b) the 16-bit element count is never incremented without a limit test; (F9c) name/class lengths and every other value encoded into 16-bit fields are bounded (Vsetname/Vsetclass guards re-verified). Not decided: equivalence with a reference graph model over edit histories, lone-object sets, ordered deletion — value-level.",
+    "rule_text": "instances = rows of the VG layout table, increments of narrow record fields, ENCODE sites of vpackvg/vpackvs and narrowing stores into their fields",
+    "trusted": [CLANG, CDB, "the frozen VG layout (DESIGN Appendix A)"],
+    "assumptions": ["the spec table is the transcription of the published format"],
+    "level_text": "Writer = reader = specification for the Vgroup record plus guard-dominance for its counters and lengths.",
+    "level_note": "Trusted: clang front end, build flags, the transcribed VG layout. Membership semantics over histories are not claimed.",
+    "technique": "AST codec-layout extraction compared with a frozen spec + guard-dominance dataflow",
+}
+PROPS["C15"] = {
+    "rules": [_layouts("image-dims", "SDD", "annotation")],
+    "level": "other",
+    "explanation": "Decides the structural part of 'all interfaces agree on the same objects': every interface that reads or writes the same on-disk record uses the same layout, each compared with one frozen specification — the image/LUT dimension record (GRIupdatemeta, DFGRaddrig/DFGRgetrig, DFR8putrig/DFR8getrig), the SDS dimension record SDD (hdf_write_var and hdf_read_rank/_dimsizes/_NT of the SD layer, DFSDIputndg/DFSDIgetndg of the single-file layer) and the annotation target prefix (ANIwriteann, DFANIputann, DFANIlocate). Not decided: the values (dimension order, number types actually passed, old-format conversions such as keeping the flavour of dimension scales).",
+    "rule_text": "instances = rows of the layout table for records shared between interfaces; non-trivial = a segment had to be located among several cursor re-seats",
+    "trusted": [CLANG, CDB, "the frozen record layouts (DESIGN Appendix A)"],
+    "assumptions": [],
+    "level_text": "Sibling-implementation agreement through a common specification: a one-sided layout change in any interface is reported, which the suite cannot see when it reads files with the interface that wrote them.",
+    "level_note": "Trusted: clang front end, build flags, the transcribed layouts. Agreement of values is not claimed.",
+    "technique": "AST codec-layout extraction compared with a frozen spec across modules",
 }
 
 NOT_APPLICABLE = {
